@@ -208,6 +208,60 @@ func pairFamily(name string, ts [][]byte) family {
 	}
 }
 
+// moveFamily: old = n distinct lines l1..ln; new = every permutation of them
+// (lines moved: what the anchoring of lines that occur once in both texts has to
+// get right), each also with its last line dropped and with a fresh line put in
+// the middle; and the same with a filler line "x" repeated at both ends of old.
+func moveFamily(name string, n int) family {
+	var perms [][]int
+	var rec func(cur []int, used uint)
+	rec = func(cur []int, used uint) {
+		if len(cur) == n {
+			perms = append(perms, append([]int(nil), cur...))
+			return
+		}
+		for i := 0; i < n; i++ {
+			if used&(1<<uint(i)) == 0 {
+				rec(append(cur, i), used|1<<uint(i))
+			}
+		}
+	}
+	rec(nil, 0)
+	return family{
+		name:  name,
+		count: func() int64 { return int64(len(perms)) * 6 },
+		each: func(w, nw int, f func(old, new []byte)) {
+			line := func(i int) string { return fmt.Sprintf("l%d\n", i+1) }
+			var plain, padded strings.Builder
+			padded.WriteString("x\n")
+			for i := 0; i < n; i++ {
+				plain.WriteString(line(i))
+				padded.WriteString(line(i))
+			}
+			padded.WriteString("x\n")
+			for pi := w; pi < len(perms); pi += nw {
+				p := perms[pi]
+				var full, short, ins strings.Builder
+				for k, i := range p {
+					full.WriteString(line(i))
+					if k < n-1 {
+						short.WriteString(line(i))
+					}
+					if k == n/2 {
+						ins.WriteString("fresh\n")
+					}
+					ins.WriteString(line(i))
+				}
+				for _, old := range []string{plain.String(), padded.String()} {
+					for _, nw := range []string{full.String(), short.String(), ins.String()} {
+						f([]byte(old), []byte(nw))
+					}
+				}
+			}
+		},
+	}
+}
+
 // editFamily: old = n lines; position i holds a unique line unless bit i of dup
 // is set, in which case it holds the filler line "x". new is derived by one op
 // per old line: 0 keep, 1 delete, 2 replace by a fresh line, 3 insert a fresh
@@ -401,6 +455,9 @@ func main() {
 		pairFamily(fmt.Sprintf("all pairs of texts <= %d lines over {a,b,c}", pick(4, 5)), texts([]string{"a", "b", "c"}, pick(4, 5))),
 		pairFamily(fmt.Sprintf("all pairs of texts <= %d lines over {a,b,c,d,e}", pick(3, 4)), texts([]string{"a", "b", "c", "d", "e"}, pick(3, 4))),
 		pairFamily(fmt.Sprintf("all pairs of texts <= %d lines over {a,b}", pick(7, 9)), texts([]string{"a", "b"}, pick(7, 9))),
+		moveFamily(fmt.Sprintf("every permutation of %d distinct lines (also with one line dropped, one added, filler lines around)", pick(7, 8)), pick(7, 8)),
+		moveFamily("every permutation of 6 distinct lines", 6),
+		moveFamily("every permutation of 4 distinct lines", 4),
 		pairFamily("all pairs of texts <= 3 lines of diff-syntax look-alikes", texts([]string{"a", "-a", "+a", " a", "@@ -1 +1 @@", "@@ -1,1 +1,1 @@", `\ No newline at end of file`, "--- old", "+++ new", ""}, pick(2, 3))),
 		pairFamily(fmt.Sprintf("all pairs of texts <= %d lines whose content must pass through untouched (format verbs, backslashes, tab, CR, NUL, invalid UTF-8)", pick(2, 3)), texts([]string{"%", "%d %s", "%%", "100%", `\\n`, `\\`, "\t", "a\r", "a", "\r", "\x00", "\xff\xfe", "é", "%!d(MISSING)"}, pick(2, 3))),
 		editFamily(fmt.Sprintf("edit scripts (keep/delete/replace/insert per line) over %d distinct lines", pick(10, 12)), pick(10, 12), []uint{0}),
